@@ -4,11 +4,13 @@ Oracle: an independent iterate model (refmodels.ref_next_imf; plain numpy, built
 public interp_envelope stage) run on the same input/options yields the iterate at which the
 rule first fires / the first iterate without envelopes. The real get_next_imf runs under a
 logical-step monitor (envelope evaluations per extraction), so termination is decided on steps."""
+import warnings
+
 import numpy as np
 
 from .. import gens
 from ..harness import watchdog, WatchdogTimeout, MonitorAbort, digest
-from ..monitors import SiftProbe
+from ..monitors import SiftProbe, thread_probe
 from ..refmodels import ref_next_imf, guard_margin
 
 MANIFEST = {
@@ -99,9 +101,13 @@ def gen_case(rng):
     if tag in gens.VIEWS:
         xp = x
     opts = rand_opts(rng)
+    if rng.random() < .1:
+        strict = True
+    else:
+        strict = False
     if kind == 'symmetric' and rng.random() < .7:
         opts['energy_thresh'] = float(gens.pick(rng, [5, 10, 20, 50]))
-    return {'kind': 'gni', 'family': kind, 'x': xp, 'opts': opts,
+    return {'kind': 'gni', 'family': kind, 'x': xp, 'opts': opts, 'runtime_warnings_are_errors': strict,
             'envelope_opts': eo, 'extrema_opts': gens.ext_opts(rng), 'presentation': tag}
 
 
@@ -145,10 +151,23 @@ def check_case(ctx, case):
     # interpolation method and one extrema_opts object per option set, shared by all calls of this process
     eo_shared = SHARED.setdefault(('e', repr(sorted(eo.items()))), dict(eo))
     xo_shared = SHARED.setdefault(('x', repr(sorted(xo.items()))), dict(xo))
+    strict = bool(case.get('runtime_warnings_are_errors'))
     try:
-        with probe, watchdog(60):
+        with probe, watchdog(60), warnings.catch_warnings():
+            if strict:
+                # the caller's session turns RuntimeWarnings into errors: the documented outcomes are still the only ones
+                warnings.simplefilter('error', RuntimeWarning)
+                ctx.count('extractions_with_runtime_warnings_as_errors')
             out, flag = S.get_next_imf(xin if case.get('presentation') in gens.VIEWS else xin.copy(), envelope_opts=eo_shared, extrema_opts=xo_shared, **opts)
         got = 'ret'
+    except RuntimeWarning as e:
+        ctx.case(dig, True)
+        if any(k in str(e) for k in ('divide by zero', 'invalid value', 'overflow', 'underflow', 'Mean of empty', 'Degrees of freedom')):
+            ctx.count('numerical_runtime_warnings_under_strict_policy')      # numpy's own arithmetic on degenerate data: not judged
+            return None
+        ctx.violation('exception:RuntimeWarning', 'with RuntimeWarnings turned into errors get_next_imf raised %r instead of returning an IMF or '
+                      'raising the convergence error' % str(e)[:100], case)
+        return 'exc'
     except WatchdogTimeout:
         ctx.count('watchdog')
         ctx.case(dig, False)
@@ -298,7 +317,22 @@ def neighbours(rng, case, k=3):
     return out
 
 
+def thread_cases(seed):
+    """Single-IMF extractions of equally long signals from different threads at the same time (several iterations each)."""
+    from emd import sift as S
+    r = np.random.default_rng(seed)
+    n = int(gens.pick(r, [150, 400, 1200]))
+    t = np.arange(n)
+    sigs = [r.standard_normal(n), np.sin(2 * np.pi * t / 9.3) + .6 * np.sin(2 * np.pi * t / 41.) + t / n, np.cumsum(r.standard_normal(n)),
+            np.sin(2 * np.pi * t / 23.) * (1 + .5 * np.sin(2 * np.pi * t / 200.)) + .3 * r.standard_normal(n)]
+    io = gens.pick(r, [{'stop_method': 'sd', 'sd_thresh': .05}, {'stop_method': 'rilling'}, {'stop_method': 'fixed', 'max_iters': 6}])
+    return [(lambda v: (lambda: S.get_next_imf(v.copy()[:, None], **io)))(v) for v in sigs], {'seed': int(seed), 'n': n, 'imf_opts': io}
+
+
 def run_shard(ctx):
+    if ctx.shard % 2 == 0:
+        calls, tcase = thread_cases(int(ctx.rng.integers(1 << 30)))
+        thread_probe(ctx, 'get_next_imf (%d samples)' % tcase['n'], calls, 40, tcase)
     rng = ctx.rng
     n = NCASES[ctx.tier] // ctx.nshards
     queue = []
@@ -337,4 +371,10 @@ def finalize(agg, tier):
 
 
 def replay(ctx, case):
+    if case.get('kind') == 'threads':
+        for _ in range(5):
+            calls, tcase = thread_cases(case['seed'])
+            if not thread_probe(ctx, 'get_next_imf (%d samples)' % tcase['n'], calls, 40, tcase):
+                break
+        return
     print('exit class:', check_case(ctx, case))
